@@ -1023,5 +1023,41 @@ def r12_20(ctx):
     return r
 
 
+def r12_21(ctx):
+    """'Every delivered message equals exactly one submitted message' / nothing lost on a reliable channel: the peer learns of
+    an in-band channel from the DCEP OPEN and drops DATA for a stream it has not been told about (while acknowledging the
+    chunk). create_data_channel therefore has to have QUEUED the OPEN when it returns - a spawned task that queues it later
+    lets a send_data() issued right away get in front of it. Decided: create_data_channel calls the synchronous
+    queue_dcep_open on the in-band path, and no closure / async block of it calls send_dcep_open."""
+    r = RuleResult("R12.21", "K4", "the DCEP OPEN is queued before create_data_channel returns")
+    fn = "peer_connection::PeerConnection::create_data_channel"
+    b = ctx.body(fn)
+    r.scope.append(fn)
+    sync = [bi for bi, t, p in b.calls() if p and p.endswith("::queue_dcep_open")]
+    deferred = []
+    for nb in ctx.facts.all_bodies():
+        if nb.name.startswith(fn + "::{closure"):
+            deferred += [(nb, bi) for bi, t, p in nb.calls() if p and p.endswith(("::send_dcep_open", "::queue_dcep_open"))]
+    if deferred:
+        nb, bi = deferred[0]
+        r.violate(fn, "dcep-open:deferred", nb.where(bi),
+                  "the DCEP OPEN is queued from a closure / spawned task: a message sent right after create_data_channel returned is queued in "
+                  "front of it and dropped by the peer as data for an unknown stream")
+    elif sync:
+        r.ok({"site": b.where(sync[0]), "OPEN": "queued synchronously"})
+    else:
+        r.violate(fn, "dcep-open:missing", b.where(0), "create_data_channel does not queue a DCEP OPEN for an in-band channel on an existing transport")
+    q = ctx.body("transports::sctp::SctpInner::queue_dcep_open") if ctx.facts.has_body("transports::sctp::SctpInner::queue_dcep_open") else None
+    if q is not None:
+        r.scope.append(q.name)
+        if q.rec.get("async") or any(blk["t"]["k"] == "yield" for blk in q.blocks):
+            r.violate(q.name, "dcep-open:can-suspend", q.where(0), "queue_dcep_open can suspend")
+        elif any(p and p.endswith("::enqueue_message") for _bi, _t, p in q.calls()):
+            r.ok({"queue_dcep_open": "synchronous, ends in enqueue_message"})
+        else:
+            r.violate(q.name, "dcep-open:not-queued", q.where(0), "queue_dcep_open does not queue the message")
+    return r
+
+
 def run(ctx):
-    return [r12_1(ctx), r12_2(ctx), r12_2b(ctx), r12_3(ctx), r12_4(ctx), r12_5(ctx), r12_7(ctx), r12_8(ctx), r12_9(ctx), r12_10(ctx), r12_11(ctx), r12_12(ctx), r12_13(ctx), r12_14(ctx), r12_15(ctx), r12_16(ctx), r12_17(ctx), r12_18(ctx), r12_19(ctx), r12_20(ctx)]
+    return [r12_1(ctx), r12_2(ctx), r12_2b(ctx), r12_3(ctx), r12_4(ctx), r12_5(ctx), r12_7(ctx), r12_8(ctx), r12_9(ctx), r12_10(ctx), r12_11(ctx), r12_12(ctx), r12_13(ctx), r12_14(ctx), r12_15(ctx), r12_16(ctx), r12_17(ctx), r12_18(ctx), r12_19(ctx), r12_20(ctx), r12_21(ctx)]
